@@ -104,6 +104,49 @@ def o1(model: Model, rep: Report):
     rep.check(ok, "C15.O1", "to_openql", t.loc, found=show(v), required="factory.construct(circuit=circuit, circuit_id=circuit_id)", what="to_openql does not export the given circuit", detail="to-openql")
 
 
+def kernel_calls(model: Model, p: Path, kernel: Term, depth: int = 0):
+    """The calls made on the kernel along ``p``, in order, and what is returned.  A delegation ``<factory object>.construct(operation, kernel)`` to
+    another operation factory of the package is replaced by that factory's own kernel calls; the kernel it hands back is the kernel."""
+    out: List[Term] = []
+    alias: Dict[Term, Term] = {}
+    for e in p.events:
+        if e.kind != "effect" or e.term is None:
+            continue
+        t = subst(e.term, alias) if alias else e.term
+        recv = t[1][1] if (t[0] == "call" and isinstance(t[1], tuple) and t[1][0] == "attr") else None
+        cname = None
+        if recv is not None and recv[0] == "new":
+            cname = recv[1]
+        elif recv is not None and recv[0] == "call" and isinstance(recv[1], tuple) and recv[1][0] == "cls" and not recv[2] and not recv[3]:
+            cname = recv[1][1]
+        if cname is not None and t[1][2] == "construct" and depth < 3:
+            cands = [c for mod in model.modules.values() if "addon_openql" in mod.name for c in mod.classes.values() if c.name == cname]
+            F = cands[0] if len(cands) == 1 else None
+            g = F.resolve("construct") if F is not None else None
+            if g is not None:
+                names = [n for n in g.param_names if n != g.self_name]
+                given = dict(zip(names, t[2]))
+                given.update(dict(t[3]))
+                if set(given) == set(names[:2]):
+                    sub_ps = [q for q in PathEnumerator(Evaluator(model, inline_methods=False)).function_paths(g, self_cls=F) if q.exit != "raise"]
+                    if len(sub_ps) == 1 and not atoms_of(sub_ps[0].cond):
+                        k2 = sym(names[1])
+                        inner, r = kernel_calls(model, sub_ps[0], k2, depth + 1)
+                        mp = {sym(n): v for n, v in given.items()}
+                        out.extend(subst(c, mp) for c in inner)
+                        if r == k2:
+                            alias[e.term] = given[names[1]]
+                        continue
+        out.append(t)
+    ret = subst(p.value, alias) if (alias and p.value is not None) else p.value
+    # the same call term appears once per statement kind (assignment + effect): keep one
+    uniq: List[Term] = []
+    for c in out:
+        if not uniq or uniq[-1] != c or c[0] != "call":
+            uniq.append(c)
+    return uniq, ret
+
+
 def o2_o3(model: Model, rep: Report):
     rep.rule("C15.O2", "CompositeCPhaseOperationsFactory.construct emits, in this order: cz(control, target); barrier(get_qubit_index(operation)); "
                        "gate('update_ph', control); gate('update_ph', target); and returns the kernel")
@@ -111,15 +154,17 @@ def o2_o3(model: Model, rep: Report):
                        "BarrierOperationsFactory: kernel.barrier(get_qubit_index(operation))")
     C = model.cls("CompositeCPhaseOperationsFactory")
     f = C.resolve("construct")
-    ps = PathEnumerator(Evaluator(model, inline_methods=False)).function_paths(f, self_cls=C)
+    ev2 = Evaluator(model, inline_methods=False)
+    ev2.inline_class_consts = True
+    ps = PathEnumerator(ev2).function_paths(f, self_cls=C)
     op, kernel = sym(f.param_names[1]), sym(f.param_names[2])
     ctl, tgt = ("attr", op, "control_qubit_index"), ("attr", op, "target_qubit_index")
     qs = ("call", QIDX, (), (("operation", op),))
     want = [("call", ("attr", kernel, "cz"), (ctl, tgt), ()), ("call", ("attr", kernel, "barrier"), (qs,), ()),
             ("call", ("attr", kernel, "gate"), (("const", "update_ph"), ctl), ()), ("call", ("attr", kernel, "gate"), (("const", "update_ph"), tgt), ())]
     for p in ps:
-        calls = [e.term for e in p.events if e.kind == "effect"]
-        rep.check(calls == want and p.value == kernel and not atoms_of(p.cond), "C15.O2", "CompositeCPhaseOperationsFactory.construct", f.loc, found=[show(c) for c in calls], required=[show(w) for w in want],
+        calls, ret = kernel_calls(model, p, kernel)
+        rep.check(calls == want and ret == kernel and not atoms_of(p.cond), "C15.O2", "CompositeCPhaseOperationsFactory.construct", f.loc, found=[show(c) for c in calls], required=[show(w) for w in want],
                   what="a controlled-phase is not exported as cz, barrier on the pair, phase update on control then target", detail="cphase")
     W = model.cls("WaitOperationsFactory")
     f = W.resolve("construct")
